@@ -390,7 +390,18 @@ pub fn coherence(threads: usize, ops: u64, nkeys: u8, seed: u64, cap: Option<u64
 // insert them, so that admissions keep evicting owned keys whose updates are still queued.
 // Valid under every interleaving.
 pub fn single_writer_under_admission(writers: usize, offerers: usize, rounds: u64, cap: u64, lookups_before_offer: u64) -> Outcome {
-    let cache: Cache<u64, u64> = Cache::builder().max_capacity(cap).build();
+    single_writer_under_admission_ttl(writers, offerers, rounds, cap, lookups_before_offer, None)
+}
+
+/// The same with a (very short, real-time) time_to_live: owned keys keep expiring between two
+/// visits, so the expiry sweep of the maintenance runs works on them while their writers
+/// rewrite them. The oracle is unchanged (an expired entry shows nothing).
+pub fn single_writer_under_admission_ttl(writers: usize, offerers: usize, rounds: u64, cap: u64, lookups_before_offer: u64, ttl_us: Option<u64>) -> Outcome {
+    let mut b = Cache::builder().max_capacity(cap);
+    if let Some(us) = ttl_us {
+        b = b.time_to_live(std::time::Duration::from_micros(us));
+    }
+    let cache: Cache<u64, u64> = b.build();
     let barrier = Arc::new(Barrier::new(writers + offerers));
     let stop = Arc::new(AtomicBool::new(false));
     let writers_done = Arc::new(AtomicU64::new(0));
@@ -467,7 +478,7 @@ pub fn single_writer_under_admission(writers: usize, offerers: usize, rounds: u6
     for h in hs {
         h.join().expect("worker");
     }
-    let params = serde_json::json!({"workload": "single_writer_under_admission", "writers": writers, "offerers": offerers, "rounds": rounds, "max_capacity": cap, "lookups_before_offer": lookups_before_offer});
+    let params = serde_json::json!({"workload": "single_writer_under_admission", "writers": writers, "offerers": offerers, "rounds": rounds, "max_capacity": cap, "lookups_before_offer": lookups_before_offer, "ttl_us": ttl_us});
     let violation = bad.lock().unwrap().take().map(|m| viol("C02", m, params.clone()));
     let mut classes = BTreeMap::new();
     let ev = evicted_seen.load(Ordering::Relaxed);
@@ -1144,7 +1155,9 @@ pub fn stress_worker(a: &WorkerArgs) -> WorkerResult {
                 // (writers, offerers, max_capacity = number of owned keys, lookups before an offer)
                 let plans: [(usize, usize, u64, u64); 4] = [(4, 4, 32, 16), (2, 2, 8, 16), (4, 2, 16, 12), (3, 3, 12, 16)];
                 let (wr, of, cap, lk) = plans[(a.idx as usize / 4) % 4];
-                let o = single_writer_under_admission(wr, of, (60_000 / cap) * scale, cap, lk);
+                // (every other worker: entries that expire after 40 microseconds)
+                let ttl = if a.idx % 2 == 1 { Some(40) } else { None };
+                let o = single_writer_under_admission_ttl(wr, of, (60_000 / cap) * scale, cap, lk, ttl);
                 add(o, &mut res, 18);
             }
         }
@@ -1171,7 +1184,7 @@ pub fn replay(found: &Found) -> Option<crate::exec::Violation> {
             Some("ttl_race") => ttl_race(g("ttl_ms"), g("keys"), g("readers") as usize, g("rounds")),
             Some("mixed") => mixed_h(&found.property, g("threads") as usize, g("ops_per_thread"), g("keys") as u32, p.get("max_capacity").and_then(|v| v.as_u64()), p.get("weigher").and_then(|v| v.as_bool()).unwrap_or(false), p.get("ttl_ms").and_then(|v| v.as_u64()), g("seed"), p.get("one_shard").and_then(|v| v.as_bool()).unwrap_or(false)),
             Some("coherence") => coherence(g("threads") as usize, g("ops_per_thread"), g("keys") as u8, g("seed"), p.get("max_capacity").and_then(|v| v.as_u64())),
-            Some("single_writer_under_admission") => single_writer_under_admission(g("writers") as usize, g("offerers") as usize, g("rounds"), g("max_capacity"), g("lookups_before_offer")),
+            Some("single_writer_under_admission") => single_writer_under_admission_ttl(g("writers") as usize, g("offerers") as usize, g("rounds"), g("max_capacity"), g("lookups_before_offer"), p.get("ttl_us").and_then(|v| v.as_u64())),
             _ => return None,
         };
         if o.violation.is_some() {
